@@ -185,3 +185,134 @@ func Same(t *amf0ref.Tree, a amf0.Amf0, path string) string {
 	}
 	return ""
 }
+
+// ---------------------------------------------------------------------------
+// Failure attribution by neutralisation
+
+// Failure is one violated oracle clause.
+type Failure struct {
+	Clause string
+	What   string
+}
+
+// Failf builds a Failure.
+func Failf(clause, format string, a ...interface{}) *Failure {
+	return &Failure{clause, fmt.Sprintf(format, a...)}
+}
+
+type neutraliser struct {
+	name string
+	f    func(*amf0ref.Tree) *amf0ref.Tree
+}
+
+func mapNodes(f func(n *amf0ref.Tree) *amf0ref.Tree) func(*amf0ref.Tree) *amf0ref.Tree {
+	return func(t *amf0ref.Tree) *amf0ref.Tree { return t.Map(f) }
+}
+
+// neutralisers remove one alphabet element each; the first one that turns a
+// failing case into a passing one names the case's distinguishing feature.
+var neutralisers = []neutraliser{
+	{"repeated-key", amf0ref.DedupKeys},
+	{"ecma-count", mapNodes(func(n *amf0ref.Tree) *amf0ref.Tree {
+		if n.Kind == amf0ref.EcmaArray {
+			n.Count = uint32(len(n.Pairs))
+		}
+		return n
+	})},
+	{"empty-key", mapNodes(func(n *amf0ref.Tree) *amf0ref.Tree {
+		if n.Kind == amf0ref.Object || n.Kind == amf0ref.EcmaArray {
+			for i := range n.Pairs {
+				if n.Pairs[i].Key == "" {
+					n.Pairs[i].Key = fmt.Sprintf("e%d", i)
+				}
+			}
+		}
+		return n
+	})},
+	{"number-nan", mapNodes(func(n *amf0ref.Tree) *amf0ref.Tree {
+		if n.Kind == amf0ref.Number && n.Float() != n.Float() {
+			return amf0ref.Num(1)
+		}
+		return n
+	})},
+	{"number-special", mapNodes(func(n *amf0ref.Tree) *amf0ref.Tree {
+		if n.Kind == amf0ref.Number {
+			return amf0ref.Num(1)
+		}
+		return n
+	})},
+	{"string-long", mapNodes(func(n *amf0ref.Tree) *amf0ref.Tree {
+		if n.Kind == amf0ref.String && len(n.Str) > 255 {
+			return amf0ref.Str("x")
+		}
+		return n
+	})},
+	{"empty-strict-array", mapNodes(func(n *amf0ref.Tree) *amf0ref.Tree {
+		if n.Kind == amf0ref.StrictArray && len(n.Pairs) == 0 {
+			return amf0ref.Nul()
+		}
+		return n
+	})},
+	{"empty-container", mapNodes(func(n *amf0ref.Tree) *amf0ref.Tree {
+		if n.Kind.IsContainer() && len(n.Pairs) == 0 {
+			return amf0ref.Nul()
+		}
+		return n
+	})},
+	{"ecma-array", mapNodes(func(n *amf0ref.Tree) *amf0ref.Tree {
+		if n.Kind == amf0ref.EcmaArray {
+			n.Kind, n.Count = amf0ref.Object, 0
+		}
+		return n
+	})},
+	{"nesting", func(t *amf0ref.Tree) *amf0ref.Tree {
+		c := t.Clone()
+		for i := range c.Pairs {
+			if c.Pairs[i].Val.Kind.IsContainer() {
+				c.Pairs[i].Val = amf0ref.Nul()
+			}
+		}
+		return c
+	}},
+}
+
+func mapSeq(seq []*amf0ref.Tree, f func(*amf0ref.Tree) *amf0ref.Tree) (out []*amf0ref.Tree, changed bool) {
+	out = make([]*amf0ref.Tree, len(seq))
+	for i, t := range seq {
+		out[i] = f(t)
+		if !amf0ref.Equal(out[i], t) {
+			changed = true
+		}
+	}
+	return
+}
+
+// StrictFeature is the feature name of the known strict-array family.
+const StrictFeature = "strict-array-nonempty"
+
+// Attribute computes the key suffix of a failing case (a sequence of values;
+// most cases have one). eval re-runs the oracle on a modified case.
+//
+// Non-empty strict arrays are the trigger of a known finding, so they are
+// neutralised first (replaced by null): if the case then passes, the feature
+// is StrictFeature and f is the original failure. If it still fails, the
+// residual failure of the neutralised case is what gets reported (f is
+// replaced), attributed by the remaining neutralisers, so that the known
+// finding cannot mask a different defect in the same input.
+func Attribute(seq []*amf0ref.Tree, f *Failure, eval func([]*amf0ref.Tree) *Failure) (string, *Failure) {
+	if s1, changed := mapSeq(seq, amf0ref.NeutraliseStrict); changed {
+		f1 := eval(s1)
+		if f1 == nil {
+			return StrictFeature, f
+		}
+		f1.What = "[with every non-empty strict array replaced by null] " + f1.What
+		seq, f = s1, f1
+	}
+	for _, n := range neutralisers {
+		s2, changed := mapSeq(seq, n.f)
+		if changed && eval(s2) == nil {
+			return n.name, f
+		}
+	}
+	return "kind=" + seq[0].Kind.String(), f
+}
